@@ -4,7 +4,7 @@ set -e
 cd "$(dirname "$0")"
 export CARGO_NET_OFFLINE=true
 python3 tools/gen_harness.py harness/src/gen_r5.rs
-[ -f /repo/Cargo.lock ] && cp /repo/Cargo.lock harness/Cargo.lock
+[ -f /repo/Cargo.lock ] && cp /repo/Cargo.lock harness/Cargo.lock && cp /repo/Cargo.lock harness_sched/Cargo.lock
 (cd coq && coq_makefile -f _CoqProject -o Makefile >/dev/null && timeout 3000 make -j16)
 python3 - <<'PY'
 import sys
@@ -14,6 +14,12 @@ common.build_extract()
 err = common.build_harness()
 if err:
     print(err[-3000:])
+    sys.exit(1)
+import sched
+fam, err, missing = sched.build()
+if missing:
+    print((err or "")[-3000:])
+    print("schedule harness: missing binaries", missing)
     sys.exit(1)
 print("setup ok")
 PY
